@@ -26,6 +26,22 @@ func vectors(minLen, maxLen, lo, hi int) [][]int {
 // helpersPre checks the integer index helpers over ALL vectors of length 1..4 (entries 1..4; 0..4 with ties for Argmax/Maximum).
 func helpersPre(tier string, r *vf.Rec) {
 	n := int64(0)
+	// every slice a helper returned is kept and compared again at the very end: a result belongs to the caller and
+	// must not change when the helper is called again (with the same or another rank)
+	type kept struct {
+		what      string
+		got, want []int
+	}
+	var keep []kept
+	defer func() {
+		for _, k := range keep {
+			if fmt.Sprint(k.got) != fmt.Sprint(k.want) {
+				r.Failf("C02/helper/result-changed-by-later-calls", map[string]interface{}{"call": k.what, "now": k.got, "was": k.want}, "the slice returned by %s now holds %v; it was %v when returned", k.what, k.got, k.want)
+				return
+			}
+		}
+		r.Count("helper_results_rechecked_after_all_calls", int64(len(keep)))
+	}()
 	for _, dims := range vectors(1, 4, 1, 4) {
 		n++
 		p := 1
@@ -37,6 +53,7 @@ func helpersPre(tier string, r *vf.Rec) {
 			return
 		}
 		off := data.Offsets(dims)
+		keep = append(keep, kept{fmt.Sprintf("Offsets(%v)", dims), off, append([]int{}, off...)})
 		for i := range dims {
 			w := 1
 			for j := i + 1; j < len(dims); j++ {
@@ -60,10 +77,12 @@ func helpersPre(tier string, r *vf.Rec) {
 				r.Failf("C02/helper/Increment", map[string]interface{}{"dims": dims, "k": k, "got": idx, "want": want}, "after %d Increments over %v the index is %v, want %v", k, dims, idx, want)
 				return
 			}
-			if got := data.IDivMod(k, off, dims); fmt.Sprint(got) != fmt.Sprint(want) {
+			got := data.IDivMod(k, off, dims)
+			if fmt.Sprint(got) != fmt.Sprint(want) {
 				r.Failf("C02/helper/IDivMod", map[string]interface{}{"dims": dims, "k": k, "got": got, "want": want}, "IDivMod(%d, Offsets(%v), %v) = %v, want %v", k, dims, dims, got, want)
 				return
 			}
+			keep = append(keep, kept{fmt.Sprintf("IDivMod(%d, Offsets(%v), %v)", k, dims, dims), got, want})
 			data.Increment(idx, dims)
 		}
 		for _, x := range idx {
@@ -96,6 +115,7 @@ func helpersPre(tier string, r *vf.Rec) {
 		for _, b := range vectors(len(a), len(a), 0, 3) {
 			n++
 			got := data.Multiply(a, b)
+			keep = append(keep, kept{fmt.Sprintf("Multiply(%v,%v)", a, b), got, append([]int{}, got...)})
 			for i := range a {
 				if got[i] != a[i]*b[i] {
 					r.Failf("C02/helper/Multiply", map[string]interface{}{"a": a, "b": b, "got": got}, "Multiply(%v,%v) = %v", a, b, got)
